@@ -65,7 +65,7 @@ def prune_caches(keep: int = 4):
         shutil.rmtree(d, ignore_errors=True)
 
 
-class BindingBroken(Exception):
+class BindingBroken(BaseException):
     pass
 
 
